@@ -340,13 +340,20 @@ def run_same_case(case):
         seq = [traces[i % len(traces)] for i in var["order"]] if traces else []
         cuts = sorted(set(c for c in var["split"] if 0 < c < len(seq)))
         batches = [seq[a:b] for a, b in zip([0] + cuts, cuts + [len(seq)])] or [[]]
-        for b in batches:                      # one connection per batch
+        days = var.get("days") or []
+        for bi, b in enumerate(batches):       # one connection per batch
             st = SQLiteStore.make_store(db)
+            before = st.conn.execute("SELECT coalesce(max(rowid), 0) FROM monkeytype_call_traces").fetchone()[0]
             st.add(b)
+            if bi < len(days) and days[bi]:    # this run happened `days[bi]` days earlier
+                with st.conn:
+                    st.conn.execute("UPDATE monkeytype_call_traces SET created_at = datetime(created_at, ?) WHERE rowid > ?",
+                                    ("-%d days" % days[bi], before))
             st.conn.close()
         env = dict(os.environ, MTP_DB=db, PYTHONHASHSEED=str(var["seed"]),
                    PYTHONPATH=os.pathsep.join([core.REPO, w["dir"], os.path.join(core.VERIF, "fixtures")]))
-        p = subprocess.run([sys.executable, "-m", "monkeytype", "-c", "mtp_config:CONFIG", "stub", "mtp_target"],
+        limit = ["--limit", str(var["limit"])] if var.get("limit") else []
+        p = subprocess.run([sys.executable, "-m", "monkeytype", "-c", "mtp_config:CONFIG"] + limit + ["stub", "mtp_target"],
                            env=env, capture_output=True, text=True, timeout=120, cwd=w["dir"])
         os.unlink(db)
         text = p.stdout if p.returncode == 0 else "<<stub failed rc=%s %s>>" % (p.returncode, p.stderr[-200:])
@@ -508,6 +515,12 @@ def gen_same(tier, seed, env_text):
                 order += [rng.randrange(n) for _ in range(rng.randint(1, 3))]   # duplicated rows
             out.append({"order": order, "split": sorted(rng.sample(range(1, max(2, len(order))), min(len(order) - 1, rng.randint(0, 2)))) if len(order) > 1 else [],
                         "seed": rng.choice([1, 2, 3, 7, 11])})
+        # runs on different days: every row its own batch, each batch on a random one of four days
+        order = list(range(n))
+        rng.shuffle(order)
+        out.append({"order": order, "split": list(range(1, n)), "days": [rng.randrange(4) for _ in range(n)], "seed": 5})
+        # many duplicates of one trace recorded last, with a query limit above the number of distinct traces
+        out.append({"order": list(range(n)) + [rng.randrange(n)] * 90, "split": [n], "limit": 40, "seed": 6})
         return out
     for g in range(30 if q else 1500):
         n = rng.randint(2, 4)
